@@ -88,6 +88,10 @@ def check(model, rep, tier):
   rep.rule('CFG-STMT', 'handler for every in-scope statement kind', floor=20)
   rep.rule('CFG-PAIR', 'enter/exit pairing on all paths', floor=7)
   rep.rule('CFG-TRY', 'try scope vs handlers / finally', floor=2)
+  rep.rule('CFG-SCOPE', 'statement lists visited inside / outside the lexical '
+           'scope window of their statement', floor=3)
+  rep.rule('CFG-KEYED', 'builder state of nestable sections is keyed by the '
+           'section', floor=4)
   rep.rule('CFG-JUMP', 'jump statements use the jump API with the right stops', floor=7)
   rep.rule('CFG-MIRROR', 'edge mirroring', floor=4)
   rep.rule('CFG-LEAVES', 'leaf set discipline', floor=2)
@@ -197,8 +201,8 @@ def check(model, rep, tier):
             witness='break / continue / return inside a finally block')
   ok2 = len(ex) == 1 and len(hloops) == 1
   if ok2:
-    exit_stmt = g.nodes[ex[0]][1]
-    ok2 = exit_stmt.lineno > hloops[0].end_lineno
+    hl = g.node_of(hloops[0].iter)
+    ok2 = ex[0] in g.reachable(hl) and hl not in g.reachable(ex[0])
   rep.check(ok2, 'CFG-TRY', '%s:scope-open-during-handlers' % vt.site,
             'the try statement leaves the lexical scope stack before its '
             'handlers are visited: a return / break / continue inside an '
@@ -206,6 +210,104 @@ def check(model, rep, tier):
             line=vt.node.lineno,
             witness='try: raise E() / except E: return 1 / finally: x = 2 -- '
             'the executed step `return 1` -> `x = 2` is not an edge')
+
+  # ---------------------------------------------------------------- CFG-SCOPE
+  # which statement lists are visited while the statement is on the lexical
+  # scope stack (the stack decides which loop a break/continue leaves and which
+  # finally blocks a jump runs through)
+  def stmt_loops(h, field):
+    p0 = h.params()[0]
+    return [n for n in ast.walk(h.node) if isinstance(n, ast.For) and
+            core.norm(n.iter) == '%s.%s' % (p0, field)]
+
+  def before(gg, a, b):
+    return b in gg.reachable(a) and a not in gg.reachable(b)
+
+  for hname, inside, outside, why, wit in (
+      ('visit_While', ['body'], ['orelse'],
+       'a break/continue in the else clause of a loop belongs to the enclosing '
+       'loop: the loop must have left the lexical scope stack before its orelse '
+       'is visited, and still be on it while its body is visited',
+       'for a in x:\n  for b in y: ...\n  else: break   # leaves the outer loop'),
+      ('visit_For', ['body'], ['orelse'], None, None),
+      ('visit_Try', ['body', 'orelse'], ['finalbody'],
+       'jumps in the body and in the else clause of a try run through its '
+       'finally block: both must be visited while the try is on the lexical '
+       'scope stack; the finally body itself after it has left',
+       'try: ... / else: return 1 / finally: x = 2')):
+    h = cls.methods.get(hname)
+    if h is None:
+      raise core.AnalysisError('AstToCfg.%s not found' % hname)
+    if why is None:
+      why, wit = prev
+    prev = (why, wit)
+    gg = pycfg.CFG(h.node)
+    ent = [i for i in range(len(gg.nodes)) if any(
+        isinstance(c.func, ast.Attribute) and c.func.attr == '_enter_lexical_scope'
+        for c in pycfg.calls_at(gg, i))]
+    exi = [i for i in range(len(gg.nodes)) if any(
+        isinstance(c.func, ast.Attribute) and c.func.attr == '_exit_lexical_scope'
+        for c in pycfg.calls_at(gg, i))]
+    ok = len(ent) == 1 and len(exi) == 1
+    facts = {}
+    if ok:
+      for f in inside:
+        ls = [gg.node_of(l.iter) for l in stmt_loops(h, f)]
+        facts[f] = 'inside'
+        if not ls or not all(before(gg, ent[0], l) and before(gg, l, exi[0]) for l in ls):
+          ok = False
+          facts[f] = 'NOT inside the scope window'
+      for f in outside:
+        ls = [gg.node_of(l.iter) for l in stmt_loops(h, f)]
+        facts[f] = 'after the scope is left'
+        if not ls or not all(before(gg, exi[0], l) for l in ls):
+          ok = False
+          facts[f] = 'NOT after the scope exit'
+    rep.check(ok, 'CFG-SCOPE', '%s:scope-window' % h.site, why, facts,
+              line=h.node.lineno, witness=wit)
+
+  # ---------------------------------------------------------------- CFG-KEYED
+  # sections nest (a try inside a finally body, a loop inside a branch): state a
+  # section method keeps between enter and exit must live in a table keyed by
+  # the section; the only shared scalar is the cursor `leaves`
+  CURSOR = {'leaves': 'the builder cursor (nodes the next node attaches to); '
+            'sections save and restore it through keyed tables'}
+  gb = model.cls(CFG, 'GraphBuilder')
+  for mname, mfi in sorted(gb.methods.items()):
+    ps = mfi.params()
+    if not ps or mname.startswith('_') or mname in ('reset', 'build'):
+      continue
+    key = ps[0]
+    uses_key = False
+    scalar = []
+    for n in core.walk_no_nested(mfi.node):
+      if isinstance(n, ast.Subscript) and isinstance(n.slice, ast.Name) and \
+          n.slice.id == key and core.norm(n.value).startswith('self.'):
+        uses_key = True
+      if isinstance(n, ast.Call) and isinstance(n.func, ast.Attribute) and \
+          n.func.attr in ('add', 'remove', 'discard') and n.args and \
+          isinstance(n.args[0], ast.Name) and n.args[0].id == key:
+        uses_key = True
+      tg = []
+      if isinstance(n, ast.Assign):
+        tg = n.targets
+      elif isinstance(n, ast.AugAssign):
+        tg = [n.target]
+      for t in tg:
+        if isinstance(t, ast.Attribute) and isinstance(t.value, ast.Name) and \
+            t.value.id == 'self':
+          scalar.append(t.attr)
+    if not uses_key:
+      continue
+    bad = sorted(set(a for a in scalar if a not in CURSOR))
+    rep.check(not bad, 'CFG-KEYED', '%s:per-section-state' % mfi.site,
+              'a section method stores per-section state in a plain attribute: '
+              'a nested section of the same kind overwrites it before the outer '
+              'section reads it back', {'scalar_attributes_written': bad,
+                                        'cursor': sorted(set(scalar) & set(CURSOR))},
+              line=mfi.node.lineno,
+              witness='try: ... finally: (try: return 1 finally: pass) -- the '
+              'statement after the outer try loses its predecessor')
 
   # ---------------------------------------------------------------- CFG-JUMP
   def handler_call(hname):
